@@ -380,6 +380,13 @@ func (c *Ctx) Fail(kind, op, tag, req, impl, expected, desc string) {
 }
 
 // Count records a runtime-only evaluation (no driver call).
+// TagOnly adds to the tag histogram without counting an evaluation.
+func (c *Ctx) TagOnly(tag string) {
+	c.mu.Lock()
+	defer c.mu.Unlock()
+	c.Res.Tags[tag]++
+}
+
 func (c *Ctx) Count(tag, key string) {
 	c.mu.Lock()
 	defer c.mu.Unlock()
